@@ -171,3 +171,63 @@ Definition s_chars_next (it : list N) : option N * list N :=
 
 (* u64::saturating_add *)
 Definition s_sat_add64 (a b : N) : N := N.min (a + b) 18446744073709551615.
+
+(* ------------------------------------------------------------------------- *)
+(* output / input of the b3sum translation (gen/GenB3sumFns2.v)              *)
+(* ------------------------------------------------------------------------- *)
+(* `?` inside a function whose result carries its `&mut` out-parameters and the output streams:
+   the early return delivers `mk (Err e)`, the error together with the current values of those *)
+Definition ctryw {E T R A} (mk : E + T -> R) (r : E + A) : ctl R A :=
+  match r with inr v => Ok (inr v) | inl e => Ok (inl (mk (inl e))) end.
+
+(* stdout / stderr are append-only lists.  Write::write_all(buf) (print!, println!, eprintln!, io::copy use it):
+   EVERY element of buf is appended.  Plain Write::write(buf) may append only a prefix and returns its length `k`
+   (chosen by the OS); a caller has to look at the count. *)
+Definition io_write_all (w buf : list N) : list N := w ++ buf.
+Definition io_write (k : N) (w buf : list N) : list N * N :=
+  (w ++ firstn (N.to_nat k) buf, N.min k (N.of_nat (length buf))).
+
+(* blake3::OutputReader = (stream, position); `fill stream position n` is the oracle for the n bytes of the
+   stream that start at `position` (C03's contract).  OutputReader::fill(&mut buf): (new buf, advanced reader) *)
+Definition rd_fill {St} (fill : St -> N -> N -> list N) (r : St * N) (buf : list N) : list N * (St * N) :=
+  let n := N.of_nat (length buf) in (fill (fst r) (snd r) n, (fst r, snd r + n)).
+
+(* [u8; n]::len(), <[u8]>::len() *)
+Definition a_len (a : list N) : N := N.of_nat (length a).
+
+(* hex::encode: two lower-case digits per byte *)
+Definition s_hex_digit (d : N) : N := if d <? 10 then 48 + d else 87 + d.
+Fixpoint s_hex_encode (bs : list N) : list N :=
+  match bs with [] => [] | b :: t => s_hex_digit (b / 16) :: s_hex_digit (b mod 16) :: s_hex_encode t end.
+
+(* std::io::copy(&mut reader.take(limit), &mut w): until the Take is exhausted, read at most `bufsz` (>= 1) bytes
+   and write_all them.  Result: (bytes copied, the Take = (reader, remaining limit), w) *)
+Fixpoint io_copy_take {St} (fill : St -> N -> N -> list N) (bufsz : N) (fuel : nat)
+         (r : St * N) (limit : N) (w : list N) (total : N) {struct fuel} : res (N * ((St * N) * N) * list N) :=
+  if limit =? 0 then Ok (total, (r, limit), w)
+  else match fuel with
+       | O => OutOfFuel
+       | S f =>
+         let n := N.min limit (N.max 1 bufsz) in
+         let piece := fill (fst r) (snd r) n in
+         io_copy_take fill bufsz f (fst r, snd r + n) (limit - n) (io_write_all w piece) (total + n)
+       end.
+
+(* io::BufReader over a checkfile: the pending results of BufRead::read_line, `inr text` (one line with its
+   terminator; text is appended to the String and its BYTE length returned) or `inl e` (an io::Error, e.g. bytes
+   that are not UTF-8; the String is left alone).  At the end of the file read_line returns Ok(0). *)
+Definition s_read_line (rd : list (list N + list N)) (line : list N)
+  : (list N + N) * list N * list (list N + list N) :=
+  match rd with
+  | [] => (inr 0, line, [])
+  | inr text :: t => (inr (s_len text), line ++ text, t)
+  | inl e :: t => (inl e, line, t)
+  end.
+
+(* Display of a u64: decimal digits *)
+Fixpoint s_dec_digits (fuel : nat) (n : N) (acc : list N) : list N :=
+  match fuel with
+  | O => acc
+  | S f => let acc' := (48 + n mod 10) :: acc in if n / 10 =? 0 then acc' else s_dec_digits f (n / 10) acc'
+  end.
+Definition s_u64_to_string (n : N) : list N := s_dec_digits 20 n [].
